@@ -7,8 +7,9 @@ from __future__ import annotations
 
 import json
 import re
+import sys
 
-from .lab import Probe, SpinGuard
+from .lab import BudgetExceeded, Probe, SpinGuard
 
 _BIG = 10**18
 _ADDR = re.compile(r" at 0x[0-9a-fA-F]+")
@@ -56,6 +57,12 @@ def norm_tree(p, t0):
         "t": [[e[0] - t0, e[1], strip_obs(e[2])] for e in p.events],
         "inner": [[None if ip.sub_tick is None else ip.sub_tick - t0, norm_tree(ip, t0)] for ip in p.inners],
     }
+
+
+def runaway(trees):
+    """True if any notification carries a RecursionError: an unbounded synchronous recursion was cut by the
+    interpreter at a depth that depends on the caller's stack, so the run is not reproducible between worlds."""
+    return any('"RecursionError"' in json.dumps(t) for t in trees)
 
 
 def tree_has_next(tree):
@@ -135,6 +142,28 @@ def guard_spin(lab, limit=95):
         return item
 
     q.dequeue = dequeue
+
+
+def guard_depth(lab, limit=400):
+    """Discard (lab.inconclusive == "budget") runs whose Python stack grows beyond `limit` frames: an unbounded
+    synchronous recursion (e.g. buffer_when whose closing observable fires inside subscribe) ends in a RecursionError at
+    a depth that depends on the caller's stack and is partly swallowed by the library, so such runs are not reproducible
+    between two worlds.  Measured: well-formed 6-operator pipelines stay below 200 frames."""
+    orig = lab.step
+
+    def step():
+        try:
+            sys._getframe(limit)
+        except ValueError:
+            return orig()
+        raise BudgetExceeded()
+
+    lab.step = step
+
+
+def guard_all(lab):
+    guard_spin(lab)
+    guard_depth(lab)
 
 
 class HProbe(Probe):
